@@ -21,26 +21,26 @@ package keeper
 //@ pure owns(A x/gov/types.ACL, key Str, who Bytes) bool = (exists i int :: 0 <= i && i < len(A) && A[i].Key == key && (forall j int :: 0 <= j && j < i ==> A[j].Key != key) && addrEq(bytes(A[i].Addr), who)) || ((forall j int :: 0 <= j && j < len(A) ==> A[j].Key != key) && len(who) == 0)
 
 //@ func (Keeper).VerifyACL
-//@   props C36
+//@   props C36,C12
 //@   modifies nothing
 //@   ensures [authorised] result == nil ==> owns(ctxACL(ctx), paramName, bytes(owner))
 //@   ensures [rejects-others] owns(ctxACL(ctx), paramName, bytes(owner)) ==> result == nil
 
 //@ func (Keeper).ModifyParam
-//@   props C36
+//@   props C36,C12
 //@   modifies all
 //@   ensures [only-owner-writes] paramUpdN != old(paramUpdN) ==> owns(ctxACL(ctx), aclKey, bytes(owner))
 //@   ensures [at-most-one-write] paramUpdN == old(paramUpdN) || paramUpdN == old(paramUpdN) + 1
 
 //@ func (Keeper).DAOTransferFrom
-//@   props C36
+//@   props C36,C12
 //@   modifies all
 //@   ensures [only-dao-owner] bankSendN != old(bankSendN) ==> addrEq(ctxDAOOwner(ctx), bytes(owner))
 //@   ensures [exact-transfer] bankSendN != old(bankSendN) ==> bankSendN == old(bankSendN) + 1 && bankSendTo == bytes(to) && bankSendFrom == "dao"
 //@   ensures [no-burn] bankBurnN == old(bankBurnN)
 
 //@ func (Keeper).DAOBurn
-//@   props C36
+//@   props C36,C12
 //@   modifies all
 //@   ensures [only-dao-owner] bankBurnN != old(bankBurnN) ==> addrEq(ctxDAOOwner(ctx), bytes(owner))
 //@   ensures [exact-burn] bankBurnN != old(bankBurnN) ==> bankBurnN == old(bankBurnN) + 1 && bankBurnFrom == "dao"
